@@ -246,11 +246,15 @@ func keysInt(m map[string]int) []string {
 	return ks
 }
 
-func c05Winner(c *core.Ctx) {
+func c05Winner(c *core.Ctx) { c05WinnerAs(c, "R3") }
+
+// c05WinnerAs runs the collision-winner table under rule id R (shared with C06: replicas that merged the same
+// updates must agree on token ownership, so the winner may not depend on map iteration order).
+func c05WinnerAs(c *core.Ctx, R string) {
 	pkg := c.Prog.Pkg("ring")
 	fn := an.FindFunc(pkg, "resolveConflicts")
 	if fn == nil {
-		c.Miss("R3", "func=resolveConflicts", "not found")
+		c.Miss(R, "func=resolveConflicts", "not found")
 		return
 	}
 	c.Analysed(fn.String())
@@ -274,7 +278,7 @@ func c05Winner(c *core.Ctx) {
 		return true
 	})
 	if store == nil {
-		c.Undec("R3", "func=resolveConflicts:winner", fn.Pos(), "store of the (multi-assigned) winner into the token→instance map not found")
+		c.Undec(R, "func=resolveConflicts:winner", fn.Pos(), "store of the (multi-assigned) winner into the token→instance map not found")
 		return
 	}
 	inner := loopOf(fn, store)
@@ -290,7 +294,7 @@ func c05Winner(c *core.Ctx) {
 	irs, _ := inner.(*ast.RangeStmt)
 	ors, _ := outer.(*ast.RangeStmt)
 	if irs == nil || ors == nil {
-		c.Undec("R3", "func=resolveConflicts:loops", fn.Pos(), "expected `for id, inst := range M { for _, tok := range inst.Tokens {…} }`")
+		c.Undec(R, "func=resolveConflicts:loops", fn.Pos(), "expected `for id, inst := range M { for _, tok := range inst.Tokens {…} }`")
 		return
 	}
 	header, body, _ := g.LoopBlocks(irs)
@@ -309,7 +313,7 @@ func c05Winner(c *core.Ctx) {
 		return true
 	})
 	if prevKeyCanon == "" {
-		c.Undec("R3", "func=resolveConflicts:prev", fn.Pos(), "lookup of the previous owner not recognised")
+		c.Undec(R, "func=resolveConflicts:prev", fn.Pos(), "lookup of the previous owner not recognised")
 		return
 	}
 	roles = append(roles, struct{ From, To string }{"p0[" + prevKeyCanon + "]", "prev"}, struct{ From, To string }{prevKeyCanon, "prevKey"})
@@ -355,11 +359,11 @@ func c05Winner(c *core.Ctx) {
 	}
 	switch {
 	case len(bad) > 0:
-		c.Viol("R3", "func=resolveConflicts:winner", store.Pos(), "winner differs from 'leaving loses to non-leaving, otherwise the smaller identifier wins' (the result would depend on map iteration order): "+strings.Join(head(bad, 4), "; "))
+		c.Viol(R, "func=resolveConflicts:winner", store.Pos(), "winner differs from 'leaving loses to non-leaving, otherwise the smaller identifier wins' (the result would depend on map iteration order): "+strings.Join(head(bad, 4), "; "))
 	case len(undec) > 0:
-		c.Undec("R3", "func=resolveConflicts:winner", store.Pos(), fmt.Sprintf("winner not determined on rows %v (unrecognised: %v)", head(undec, 3), keys(bd.Unknown)))
+		c.Undec(R, "func=resolveConflicts:winner", store.Pos(), fmt.Sprintf("winner not determined on rows %v (unrecognised: %v)", head(undec, 3), keys(bd.Unknown)))
 	default:
-		c.Hold("R3", "func=resolveConflicts:winner", store.Pos(), fmt.Sprintf("winner table matches on %d rows (found × leaving flags × identifier order)", n), n)
+		c.Hold(R, "func=resolveConflicts:winner", store.Pos(), fmt.Sprintf("winner table matches on %d rows (found × leaving flags × identifier order)", n), n)
 	}
 	// LEFT skipped: in the outer loop, the inner loop is unreachable when ing.State == LEFT
 	oh, ob, _ := g.LoopBlocks(ors)
@@ -367,7 +371,7 @@ func c05Winner(c *core.Ctx) {
 		Binder: &an.Binder{Fn: fn, Roles: roles, Eq: map[string]string{"ing.State|LEFT": "left"}}, Targets: []an.Loc{g.Locate(irs.X)}, Names: []string{"token loop"},
 		Want: func(r an.Row, _ int) an.Tri { return an.FromBool(r["left"] == "F") }}
 	res := t.Run()
-	c.Check(res.OK(), "R3", "func=resolveConflicts:left-skipped", ors.Pos(), "tokens of LEFT entries take no part in ownership: "+res.Summary(), res.Rows)
+	c.Check(res.OK(), R, "func=resolveConflicts:left-skipped", ors.Pos(), "tokens of LEFT entries take no part in ownership: "+res.Summary(), res.Rows)
 }
 
 func c05MergeUses(c *core.Ctx) {
